@@ -616,8 +616,15 @@ def gen_doc(rng: random.Random, fam: str, opts: Optional[Dict[str, Any]] = None)
     has_dict = rng.random() < prof["p_dict"]
     names_dict: Optional[Dict[str, Any]] = None
     uniq = 0
+    shared_names: List[str] = []        # spellings that exist as a name-tree STRING key and as a /Dests NAME
+    tree_only_names: List[str] = []     # spellings of string keys that a name object must NOT find (12.3.2.3)
     if has_tree:
         tree_keys = gen_keys(rng, rng.randint(*prof["keys"]))
+        if rng.random() < 0.7:
+            extra = gen_names(rng, rng.randint(1, 4))
+            tree_keys = sorted(set(tree_keys) | {nm.encode("ascii") for nm in extra})
+            for nm in extra:
+                (shared_names if has_dict and rng.random() < 0.6 else tree_only_names).append(nm)
         items = []
         for k in tree_keys:
             uniq += 1
@@ -650,12 +657,21 @@ def gen_doc(rng: random.Random, fam: str, opts: Optional[Dict[str, Any]] = None)
         cat["Names"] = doc.add(names_dict) if rng.random() < 0.5 else names_dict
     if has_dict:
         spelled = set(tree_keys)
-        dict_names = [nm for nm in gen_names(rng, rng.randint(*prof["names"])) if nm.encode("ascii") not in spelled]
+        own = [nm for nm in gen_names(rng, rng.randint(*prof["names"])) if nm not in tree_only_names]
+        shared_names += [nm for nm in own if nm.encode("ascii") in spelled and nm not in shared_names]   # by chance
+        dict_names = sorted(set(own) | set(shared_names))
         dd: Dict[str, Any] = {}
         for nm in dict_names:
-            uniq += 1
-            dd[nm] = gen_dest_value(rng, doc, page_refs, 5000 + uniq, feats)
+            while True:
+                uniq += 1
+                v = gen_dest_value(rng, doc, page_refs, 5000 + uniq, feats)
+                # the same spelling in the other namespace leads somewhere else
+                if nm.encode("ascii") not in tree_vals or R.norm_gen(doc, v) != R.norm_gen(doc, tree_vals[nm.encode("ascii")]):
+                    break
+            dd[nm] = v
             dict_vals[nm] = dd[nm]
+        if shared_names:
+            feats["docs_with_shared_name_and_string_spellings"] = 1
         cat["Dests"] = doc.add(dd) if rng.random() < 0.5 else dd
         feats["dests_dict"] = 1
 
@@ -676,13 +692,24 @@ def gen_doc(rng: random.Random, fam: str, opts: Optional[Dict[str, Any]] = None)
     else:
         for k in (b"a", b"Chapter1"):
             lookups.append([k, None, "tree_absent:no_tree"])
+    # 12.3.2.3: a name object is looked up in the catalog's Dests dictionary, a string in the Dests name tree;
+    # the same spelling in the other table is a different destination or none at all
     for nm in dict_names:
-        lookups.append([nm, R.norm_gen(doc, dict_vals[nm]), "dict_present"])
-    # name objects that are in neither table (a name spelled like a key of the tree is left out: whether a
-    # name object may match a string key is not something 12.3.2.3 settles)
+        if nm.encode("ascii") in tree_vals:
+            lookups.append([nm, R.norm_gen(doc, dict_vals[nm]), "dict_present:shared_spelling"])
+            lookups.append([nm.encode("ascii"), R.norm_gen(doc, tree_vals[nm.encode("ascii")]), "tree_present:shared_spelling"])
+        else:
+            lookups.append([nm, R.norm_gen(doc, dict_vals[nm]), "dict_present"])
+            if has_tree or rng.random() < 0.3:
+                lookups.append([nm.encode("ascii"), None, "tree_absent:spelled_like_dict_name"])
+    nodict = "" if has_dict else ":no_dict"
+    for nm in tree_only_names:
+        if nm not in dict_vals:
+            lookups.append([nm, None, "dict_absent%s:spelled_like_tree_key" % nodict])
     for nm in ["zz.absent", "Q", "Chapter1"]:
-        if nm not in dict_vals and nm.encode("ascii") not in tree_vals:
-            lookups.append([nm, None, "dict_absent" if has_dict else "dict_absent:no_dict"])
+        if nm not in dict_vals:
+            cls = ":spelled_like_tree_key" if nm.encode("ascii") in tree_vals else ""
+            lookups.append([nm, None, "dict_absent" + nodict + cls])
     case.pop("nt_root", None)
     case["lookups"] = lookups
 
